@@ -251,8 +251,14 @@ func writeSchemaLocs(root string, seed uint64, tier, corpus string) {
 	all := append(append([]string{}, locInside...), locOutside...)
 	dirs := []string{"graph", "internal/graph", "."}
 	k := 0
-	for _, dir := range dirs {
+	pickLayout := r.Bool()
+	for di, dir := range dirs {
 		for _, follow := range []bool{false, true} {
+			// quick: `graph` in both layouts, the nested directory and the project directory in one layout each
+			if tier != "thorough" && di > 0 && follow != (pickLayout == (di == 1)) {
+				k++
+				continue
+			}
 			cl := append([]string{}, all...)
 			for i := len(cl) - 1; i > 0; i-- {
 				j := r.Below(i + 1)
